@@ -7,7 +7,7 @@ Open Scope N_scope.
 Theorem c17_source_shape :
   translated_packets = true /\ types_read_uint_len_ok = true /\ types_read_str_len_ok = true /\
   types_uint_len_ok = true /\ types_column_type_codes = column_type_codes /\
-  packets_string_param_types = string_types.
+  packets_string_param_types = string_types /\ types_fixed_width_ok = true.
 Proof. repeat split; reflexivity. Qed.
 
 (* with the capability: every attribute list and every SQL byte string come back as sent *)
